@@ -562,6 +562,14 @@ pub fn try_(ops: Ops, pattern: bool, env: &mut Uiua) -> UiuaResult {
         let (f_sig, handler_sig) = (f.sig, handler.sig);
         let backup = env.clone_stack_top(try_sig.args().min(f.sig.args()))?;
         if let Err(mut err) = env.exec_clean_stack(f) {
+            // Running out of time or being interrupted ends the program,
+            // so it is not an error that a handler gets to recover from
+            if matches!(
+                *err.kind,
+                crate::UiuaErrorKind::Timeout(..) | crate::UiuaErrorKind::Interrupted
+            ) {
+                return Err(err);
+            }
             if takes_error && handler_sig.outputs() < try_sig.outputs() {
                 env.pop("error")?;
             }
